@@ -125,8 +125,6 @@ B('C13.compose-appends', ['C13'], [(P + 'tls/subprotocol.py', "        cipher_su
 B('C13.observer-caches-on-self', ['C13'], [(P + 'ssh/key.py', "    def fingerprints(self):\n        key_bytes = self.key_bytes", "    def fingerprints(self):\n        key_bytes = self._cached_key_bytes = self.key_bytes")])
 B('C13.shared-default', ['C13'], [(P + 'tls/extension.py', "        default=attr.Factory(bytearray),", "        default=bytearray(),")])
 B('C13.alias-input', ['C13'], [(P + 'tls/subprotocol.py', "        return TlsApplicationDataMessage(bytearray(parsable)), len(parsable)", "        return TlsApplicationDataMessage(parsable), len(parsable)")])
-B('C14.drop-finally', ['C14', 'C13'], [(P + 'common/base.py', "                try:\n                    _, human_readable_name = cls._markdown_result(name)\n                finally:\n                    cls.post_text_encoder = post_text_encoder",
-                                        "                _, human_readable_name = cls._markdown_result(name)\n                cls.post_text_encoder = post_text_encoder")])
 B('C14.unsorted-set', ['C14'], [(P + 'common/base.py', "                for item in sorted(obj, key=Serializable._unordered_item_sort_key)", "                for item in obj")])
 B('C14.no-default-branch', ['C14'], [(P + 'common/base.py', "        elif isinstance(obj, (bytes, bytearray)):\n            result = bytes_to_hex_string(obj, separator=':', lowercase=False)\n        else:\n            result = str(obj)",
                                       "        elif isinstance(obj, (bytes, bytearray)):\n            result = bytes_to_hex_string(obj, separator=':', lowercase=False)\n        elif isinstance(obj, object):\n            result = str(obj)")])
@@ -177,3 +175,48 @@ N('benign.reorder-independent-statements', [
 N('benign.extra-enum-member', [(P + 'tls/subprotocol.py', "    HEARTBEAT = 0x18", "    HEARTBEAT = 0x18\n    TLS12_CID = 0x19")])
 N('benign.new-harmless-method', [(P + 'ssh/record.py', "    def compose(self):\n        body_composer = ComposerBinary()\n        body_composer.compose_parsable(self.packet)",
                                   "    def describe(self):\n        return 'ssh record with %s' % type(self.packet).__name__\n\n    def compose(self):\n        body_composer = ComposerBinary()\n        body_composer.compose_parsable(self.packet)")])
+
+# ---------------------------------------------------------------- variants for the rules added after the seeded changes
+B('C14.timedelta-seconds', ['C14'], [(P + 'common/base.py', "return False, str(int(obj.total_seconds()))", "return False, str(obj.seconds)")], mention=['C14.R3'])
+B('C14.class-state-swap', ['C14'], [(P + 'common/base.py', "                _, human_readable_name = _SerializablePlainText._markdown_result(name)",
+                                     "                saved = cls.post_text_encoder\n                cls.post_text_encoder = SerializableTextEncoder()\n                try:\n                    _, human_readable_name = cls._markdown_result(name)\n                finally:\n                    cls.post_text_encoder = saved")],
+  mention=['C14.R2'])
+B('C11.negative-mpint-words', ['C11'], [(P + 'common/parse.py', "        bit_length = (~value).bit_length() + 1 if negative else value.bit_length()\n", "        bit_length = value.bit_length()\n")], mention=['C11.R6'])
+B('C11.mpint-parse-complement', ['C11', 'C07'], [(P + 'common/parse.py', "            complement = 1 << (8 * (mpint_length + len(pad_bytes)))", "            complement = 1 << (8 * mpint_length)")], mention=['R6', 'R5'])
+B('C06.ssl2-escape-bit', ['C06'], [(P + 'tls/record.py', "(parser['record_length_0'] & 0x3f)", "(parser['record_length_0'] & 0x7f)")], mention=['C06.R4'])
+B('C06.ssl2-padding-in-two-byte-form', ['C06'], [(P + 'tls/record.py', "            padding_length = 0\n        else:", "            padding_length = parser['record_length_1'] & 0x07\n        else:")], mention=['C06.R4'])
+B('C09.flag-registry', ['C09'], [(P + 'tls/mysql.py', "parser.parse_numeric_flags('states', 2, MySQLStatusFlag)", "parser.parse_numeric_flags('states', 2, MySQLCapability)")], mention=['binding'])
+B('C10.grease-two-byte-mask', ['C10', 'C15'], [(P + 'tls/grease.py',
+  "            try:\n                self.code = self.get_grease_enum().from_code(self.code).value.code\n                value_type = TlsInvalidType.GREASE\n            except InvalidValue:\n                value_type = TlsInvalidType.UNKNOWN",
+  "            if self.get_byte_num() == 2 and self.code & 0x0f0f == 0x0a0a or self.get_byte_num() == 1 and self.code % 0x1f == 0x0b:\n                value_type = TlsInvalidType.GREASE\n            else:\n                value_type = TlsInvalidType.UNKNOWN")])
+B('C13.vector-adopts-list', ['C13'], [(P + 'common/base.py', "        self.param = self.get_param()\n        self._items = []\n\n        for item in items:\n            self._items.append(item)\n            self._items_size += self.param.get_item_size(item)",
+                                       "        self.param = self.get_param()\n        if not isinstance(items, list):\n            items = list(items)\n        self._items = items\n\n        for item in items:\n            self._items_size += self.param.get_item_size(item)")], mention=['items-container'])
+B('C16.hassh-upper-hex', ['C16'], [(P + 'ssh/subprotocol.py', "return bytes_to_hex_string(message.digest(), lowercase=True)", "return bytes_to_hex_string(message.digest(), lowercase=False)")])
+B('C16.hassh-sorted-names', ['C16'], [(P + 'ssh/subprotocol.py', "                for algorithm in algorithms\n            ])\n            for algorithms in algorithm_vectors",
+                                       "                for algorithm in sorted(algorithms, key=str)\n            ])\n            for algorithms in algorithm_vectors")])
+B('C18.strip-only-spaces', ['C18'], [(P + 'common/field.py', "            separator_spaces=' \\t',\n            skip_empty=True", "            separator_spaces=' ',\n            skip_empty=True")])
+B('C19.swallowed-read-failure', ['C19'], [(P + 'ssh/key.py', "        for _ in range(parser['ocsp_response_count']):\n            parser.parse_bytes('ocsp_response', 4)\n            ocsp_responses.append(parser['ocsp_response'])",
+                                           "        for _ in range(parser['ocsp_response_count']):\n            try:\n                parser.parse_bytes('ocsp_response', 4)\n            except NotEnoughData:\n                continue\n            ocsp_responses.append(parser['ocsp_response'])")], props=['C19'], mention=['idle-path'])
+B('C03.ldap-forced-dump', ['C03'], [(P + 'tls/ldap.py', "        return LDAPExtendedRequestStartTLS(), len(asn1_message.dump())", "        return LDAPExtendedRequestStartTLS(), len(asn1_message.dump(force=True))")], mention=['C03.R3'])
+B('C08.dns-label-codec', ['C01', 'C08'], [(P + 'dnsrec/record.py', "parser.parse_string('label', 1, encoding='idna')", "parser.parse_string('label', 1, encoding='utf-8')")])
+
+N('benign.ssl2-header-two-single-bytes', [(P + 'tls/record.py', "        header_composer.compose_numeric(body_composer.composed_length | (2 ** 15), 2)",
+                                           "        header_composer.compose_numeric(((body_composer.composed_length >> 8) & 0x7f) | 0x80, 1)\n        header_composer.compose_numeric(body_composer.composed_length & 0xff, 1)")])
+N('benign.ssl2-length-by-shift', [(P + 'tls/record.py', "            record_length = ((parser['record_length_0'] & 0x7f) * (2 ** 8)) + parser['record_length_1']",
+                                   "            record_length = ((parser['record_length_0'] & 0x7f) << 8) | parser['record_length_1']")])
+N('benign.grease-correct-arithmetic', [(P + 'tls/grease.py',
+  "            try:\n                self.code = self.get_grease_enum().from_code(self.code).value.code\n                value_type = TlsInvalidType.GREASE\n            except InvalidValue:\n                value_type = TlsInvalidType.UNKNOWN",
+  "            if (self.get_byte_num() == 2 and self.code & 0x0f0f == 0x0a0a and self.code >> 8 == self.code & 0xff or\n                    self.get_byte_num() == 1 and self.code % 0x1f == 0x0b):\n                value_type = TlsInvalidType.GREASE\n            else:\n                value_type = TlsInvalidType.UNKNOWN")])
+N('benign.name-check-casefold', [(P + 'common/field.py', "        if name.lower() != cls.get_canonical_name().lower():\n            raise InvalidType()\n\n    @classmethod\n    def _check_name(cls, name):",
+                                  "        if name.upper() != cls.get_canonical_name().upper():\n            raise InvalidType()\n\n    @classmethod\n    def _check_name(cls, name):")])
+N('benign.whitespace-rstrip-once', [(P + 'common/parse.py',
+  "        separator_space_count = 0\n        byte_separator_spaces = six.ensure_binary(separator_spaces, self._encoding)\n        while (item_end > item_offset and\n                self._parsable[\n                    item_end - separator_space_count - 1:\n                    item_end - separator_space_count\n                ] in byte_separator_spaces):\n            separator_space_count += 1\n",
+  "        byte_separator_spaces = six.ensure_binary(separator_spaces, self._encoding)\n        item_bytes = bytes(self._parsable[item_offset:item_end])\n        separator_space_count = len(item_bytes) - len(item_bytes.rstrip(byte_separator_spaces)) if byte_separator_spaces else 0\n")])
+N('benign.epoch-via-astimezone', [(P + 'common/parse.py', "timestamp = int(calendar.timegm(value.utctimetuple()))", "timestamp = int(calendar.timegm(value.astimezone(dateutil.tz.UTC).timetuple())) if value.tzinfo else int(calendar.timegm(value.utctimetuple()))")])
+N('benign.hassh-hexdigest', [(P + 'ssh/subprotocol.py', "        message = hashlib.md5()\n        message.update(six.ensure_binary(hassh_text, 'ascii'))\n\n        return bytes_to_hex_string(message.digest(), lowercase=True)",
+                              "        return hashlib.md5(six.ensure_binary(hassh_text, 'ascii')).hexdigest()")])
+N('benign.ldap-length-local', [(P + 'tls/ldap.py', "        return LDAPExtendedRequestStartTLS(), len(asn1_message.dump())", "        consumed = len(asn1_message.dump())\n\n        return LDAPExtendedRequestStartTLS(), consumed")])
+N('benign.mpint-word-count-closed-form', [(P + 'common/parse.py', "        length = bit_length // 32\n        if bit_length % 32:\n            length += 1\n", "        length = (bit_length + 31) // 32\n")])
+N('benign.vector-list-constructor', [(P + 'common/base.py', "        self.param = self.get_param()\n        self._items = []\n\n        for item in items:", "        self.param = self.get_param()\n        self._items = list()\n\n        for item in items:")])
+N('benign.byte-order-polarity', [(P + 'common/parse.py', "                    if self.byte_order in [ByteOrder.BIG_ENDIAN, ByteOrder.NETWORK]:\n                        item_bytes = b'\\x00' + item_bytes\n                    else:\n                        item_bytes = item_bytes + b'\\x00'",
+                                  "                    if self.byte_order in (ByteOrder.LITTLE_ENDIAN, ByteOrder.NATIVE):\n                        item_bytes = item_bytes + b'\\x00'\n                    else:\n                        item_bytes = b'\\x00' + item_bytes")])
